@@ -195,6 +195,7 @@ _blob_is_registered_type (GTypelibBlobType blob_type)
   switch (blob_type)
     {
       case BLOB_TYPE_STRUCT:
+      case BLOB_TYPE_BOXED:
       case BLOB_TYPE_UNION:
       case BLOB_TYPE_ENUM:
       case BLOB_TYPE_FLAGS:
@@ -213,6 +214,7 @@ _blob_is_registered_type (GTypelibBlobType blob_type)
 
 #define BLOB_IS_REGISTERED_TYPE(blob)               \
         ((blob)->blob_type == BLOB_TYPE_STRUCT ||   \
+         (blob)->blob_type == BLOB_TYPE_BOXED  ||   \
          (blob)->blob_type == BLOB_TYPE_UNION  ||   \
          (blob)->blob_type == BLOB_TYPE_ENUM   ||   \
          (blob)->blob_type == BLOB_TYPE_FLAGS  ||   \
